@@ -65,7 +65,7 @@ def check_as_str(inst, V, ctx, body, item, feature='as_str'):
             if tv is None or tv[0] != 'array':
                 bad('shape', 'name table does not fold', 'unrecognised'); return None
             try:
-                f = sc.affine(val[2]).restrict(region)
+                f = sc.affine(val[2], region=region)
             except Unrecognised as e:
                 bad('shape', str(e), 'unrecognised'); return None
             x = f.equal_on(pos, region)
